@@ -37,6 +37,13 @@ ASSUMPTIONS = [
     "correspondences and re-sampled here on every script step)",
 ]
 MODELLED_NOT_VERIFIED = [
+    "C20 (round 4): CONFIGURATION of the initiator under the tester is outside the Lean model's quantifier and covered by "
+    "correspondence / oracle only: the model's messages are group-less field lists (a parsed repeating group is compared "
+    "through its wire-order flattening; the STRUCTURE handed to on_message is compared between tester and real endpoint by the "
+    "oracle), Proto.beginString is the generated FIX.4.4 constant (another BeginString: oracle only, known finding "
+    "C20-acceptor-protocol-hardwired), session_message_types / heartbeat / journal history are sampled (the theorem covers any "
+    "heartbeat and any journal whose rows are below the counters); tag KEY SPELLINGS (int / str / FTag) of msg_logon and the "
+    "*_sent_query helpers collapse to str(tag) in the model and are enumerated by the harness",
     "C20: fix_exec_report_msg / fix_cxlrep_reject_msg / fix_cxl_request / fix_rep_request / msg_* and the lines of "
     "process_execution_report / process_cancel_rej_report are hand-modelled (Model/Tester.lean) and compared on every run",
     "C20: FIXSchema.validate restricted to the helper's messages is hand-modelled over GENERATED dictionary tables "
@@ -287,6 +294,16 @@ def impl_fab(case):
     return out, msg, o
 
 
+def guarded(fn, case, arity):
+    """run one implementation-side case; an exception nobody anticipated is an OUTCOME of that case (compared with the
+    model like any other), never the end of the check"""
+    try:
+        return fn(case)
+    except Exception as e:  # noqa
+        r = "raised " + type(e).__name__ + ": " + str(e)[:80]
+        return r if arity == 1 else (r,) + (None,) * (arity - 1)
+
+
 def fab_line(case):
     return "tst.fab %d %s O %s A %s" % (
         1 if case["schema"] else 0, tstate_tokens(case["tester"]), order_tokens(case["order"]), args_tokens(case["args"]))
@@ -373,27 +390,51 @@ def canon_request(text):
     return " # ".join(p)
 
 
+def spell(tag, how):
+    """a tag key the way a caller may spell it: int, str or FTag member"""
+    from asyncfix import FTag
+
+    if how == "str":
+        return str(tag)
+    if how == "ftag":
+        try:
+            return FTag(str(tag))
+        except ValueError:
+            return str(tag)
+    return int(tag)
+
+
+def logon_tags(spec):
+    extras = spec[1] or []
+    how = spec[2] if len(spec) > 2 else "int"
+    hows = ["int", "str", "ftag"]
+    return {spell(t, how if how != "mixed" else hows[i % 3]): v for i, (t, v) in enumerate(extras)} if extras else None
+
+
 def impl_msg(spec):
-    """`msg_*` factories; returns (message tokens, validates with the real schema 0|1)"""
+    """`msg_*` factories; returns (message tokens # validates with the real schema 0|1  |  raised <kind>, message)"""
     from asyncfix import FIXTester
 
-    ft = FIXTester(schema=None)
     k = spec[0]
-    if k == "logon":
-        m = ft.msg_logon(dict(spec[1]) if spec[1] else None)
-    elif k == "logout":
-        m = ft.msg_logout()
-    elif k == "hb":
-        m = ft.msg_heartbeat(spec[1])
-    elif k == "testreq":
-        m = ft.msg_test_request(spec[1])
-    elif k == "seqreset":
-        m = ft.msg_sequence_reset(spec[1], spec[2], spec[3])
-    elif k == "resend":
-        m = ft.msg_resend_request(spec[1], spec[2])
-    else:
-        raise ValueError(spec)
-    return msg_tokens(m) + " # " + ("1" if validates(m) else "0"), m
+    try:
+        ft = FIXTester(schema=None)
+        if k == "logon":
+            m = ft.msg_logon(logon_tags(spec))
+        elif k == "logout":
+            m = ft.msg_logout()
+        elif k == "hb":
+            m = ft.msg_heartbeat(spec[1])
+        elif k == "testreq":
+            m = ft.msg_test_request(spec[1])
+        elif k == "seqreset":
+            m = ft.msg_sequence_reset(spec[1], spec[2], spec[3])
+        elif k == "resend":
+            m = ft.msg_resend_request(spec[1], spec[2])
+        else:
+            raise ValueError(spec)
+        return msg_tokens(m) + " # " + ("1" if validates(m) else "0"), m
+    except Exception as e:  # noqa  an outcome, never a crash of the check
+        return "raised " + type(e).__name__, None
 
 
 def msg_line(spec):
@@ -661,10 +702,14 @@ def correspondence(ctx):
     model = drv.batch([fab_line(c) for c in cases])
     fabricated = []
     for c, ml in zip(cases, model):
-        il, msg, _o = impl_fab(c)
+        il, msg, _o = guarded(impl_fab, c, 3)
         key = (order_tokens(c["order"]), args_tokens(c["args"]), c["schema"])
         seen.add(key)
         parts = il.split(" # ")
+        if len(parts) < 2:
+            inc("fab:" + il[:40])
+            dis.append({"input": c, "model": ml, "impl": il})
+            continue
         inc("fab:" + " ".join(parts[1].split(" ")[:2]) if parts[1].startswith("refused") else "fab:ok")
         if len(parts) > 2:
             inc("proc:" + " ".join(parts[2].split(" ")[:2]))
@@ -702,9 +747,9 @@ def correspondence(ctx):
             rcases.append(c)
             rlines.append(request_line(c))
     for c, ml in zip(rcases, drv.batch(rlines) if rlines else []):
-        il = impl_request(c)
+        il = guarded(impl_request, c, 1)
         seen.add(("req", c["kind"], order_tokens(c["order"]), num_tok(c["price"]), num_tok(c["qty"])))
-        res = il.split(" # ")[2]
+        res = il.split(" # ")[2] if il.count(" # ") >= 2 else il[:40]
         inc("req:" + c["kind"] + ":" + ("ok" if res.startswith("ok") else res))
         if il != canon_request(ml):
             dis.append({"input": c, "model": ml, "impl": il})
@@ -725,7 +770,7 @@ def correspondence(ctx):
             jcases.append(c)
             jlines.append(cxlrej_line(c))
     for c, ml in zip(jcases, drv.batch(jlines) if jlines else []):
-        il, _m = impl_cxlrej(c)
+        il, _m = guarded(impl_cxlrej, c, 2)
         seen.add(("cxlrej", order_tokens(c["order"]), c["status"], c["req"][0]))
         inc("cxlrej:" + ("ok" if il.startswith("ok") else il))
         if " # " in il:
@@ -739,9 +784,11 @@ def correspondence(ctx):
     for sp, ml in zip(specs, drv.batch([msg_line(s) for s in specs])):
         il, _m = impl_msg(sp)
         seen.add(("msg",) + tuple(map(str, sp)))
-        inc("msg:" + sp[0] + ":" + il[-1])
+        inc("msg:" + sp[0] + ":" + (il[-1] if not il.startswith("raised") else il))
+        if sp[0] == "logon" and sp[1]:
+            inc("msg:logon-keys:" + (sp[2] if len(sp) > 2 else "int"))
         if il != ml:
-            dis.append({"input": {"msg": list(map(str, sp))}, "model": ml, "impl": il})
+            dis.append({"input": {"kind": "msg", "spec": [list(x) if isinstance(x, tuple) else x for x in sp]}, "model": ml, "impl": il})
     n_eval += len(specs)
 
     # ---- (b) wiring ------------------------------------------------------------------------------
@@ -775,6 +822,9 @@ def session_specs(rng, n):
            ("seqreset", 5, 9, True), ("resend", 1, "0"), ("resend", 3, 7), ("logon", [(98, 0), (108, 5)]),
            ("logon", [(141, "Y")]), ("logon", [(108, "x")]), ("testreq", "a=b"), ("seqreset", 0, 5, False),
            ("seqreset", 1, 0, True), ("resend", 0, 0), ("hb", ""), ("logon", [(98, 9)])]
+    for how in ("int", "str", "ftag", "mixed"):  # every key spelling × defaulted / not defaulted tags
+        out += [("logon", [(108, 60)], how), ("logon", [(98, 0)], how), ("logon", [(98, 0), (108, 5), (553, "user")], how),
+                ("logon", [(553, "user")], how), ("logon", [(141, "Y"), (108, 1)], how)]
     while len(out) < n:
         k = rng.choice(["logon", "hb", "testreq", "seqreset", "resend"])
         if k == "logon":
@@ -785,7 +835,11 @@ def session_specs(rng, n):
                 ex.append((98, rng.choice([0, 1, "0", 7])))
             if rng.random() < 0.3:
                 ex.append((141, rng.choice(["Y", "N", "X"])))
-            out.append(("logon", ex or None))
+            if rng.random() < 0.3:
+                ex.append((553, rng.choice(["user", "u=1"])))
+            if rng.random() < 0.15:
+                ex.append((554, "secret"))
+            out.append(("logon", ex or None, rng.choice(["int", "str", "ftag", "mixed"])))
         elif k == "hb":
             out.append(("hb", rng.choice([None, "T", str(rng.randrange(10**9)), rng.randrange(10**6)])))
         elif k == "testreq":
@@ -849,8 +903,12 @@ def fab_clauses(case, out, msg, order_before):
 
 def oracle_fab(ctx, cases, failures, stats):
     for c in cases:
-        out, msg, o = impl_fab(dict(c, schema=False))
+        out, msg, o = guarded(impl_fab, dict(c, schema=False), 3)
         stats["fabrications"] += 1
+        if msg is None and out.startswith("raised"):
+            failures.append({"signature": "C20-helper-foreign-exception:" + out.split(":")[0].split(" ")[-1], "what": "the helper or the "
+                             "order object raised something unanticipated", "input": c, "observed": out})
+            continue
         if msg is None:
             if out.split(" # ")[1].startswith("refused exc:"):
                 failures.append({"signature": "C20-helper-foreign-exception:" + out.split(" ")[-1], "what": "the helper raised something "
@@ -862,7 +920,7 @@ def oracle_fab(ctx, cases, failures, stats):
         # with the schema attached the helper must accept exactly the same dictionary-typed combinations
         a = c["args"]
         if a["exec"] in DICT_EXEC and a["status"] in DICT_STAT:
-            out2, msg2, _ = impl_fab(dict(c, schema=True))
+            out2, msg2, _ = guarded(impl_fab, dict(c, schema=True), 3)
             if msg2 is None:
                 failures.append({"signature": "C20-fabricated-report-invalid", "what": "refused by the helper's own schema validation "
                                  "although every assertion passed", "input": dict(c, schema=True), "observed": out2})
@@ -983,7 +1041,8 @@ def oracle(ctx, disagreements, broken):
     oracle_fab(ctx, cases, failures, stats)
     oracle_sequences(ctx, failures, stats, ctx.n(60, 600) * mult)
     oracle_cxlrej(ctx, failures, stats, ctx.n(40, 300) * mult)
-    oracle_session(ctx, failures, stats)
+    first_msgs = [d["input"]["spec"] for d in disagreements if isinstance(d.get("input"), dict) and d["input"].get("kind") == "msg"]
+    oracle_session(ctx, failures, stats, [s for s in first_msgs if spec_is_valid(s)][:50])
     W.oracle(ctx, failures, stats, disagreements, broken)
     ctx.oracle_stats = dict(stats, failures=len(failures))
     return failures
@@ -1000,7 +1059,7 @@ def oracle_cxlrej(ctx, failures, stats, n):
         for st in DICT_STAT:
             mt = "F" if v["status"] == "6" else "G"
             c = {"kind": "cxlrej", "order": v, "req": (mt, [(11, v["clord"]), (41, v["orig"])]), "status": st, "schema": False}
-            out, m = impl_cxlrej(c)
+            out, m = guarded(impl_cxlrej, c, 2)
             stats["cxlrej"] += 1
             if m is None:
                 failures.append({"signature": "C20-cxlrej-refused", "what": "cancel reject for a valid request refused", "input": c,
@@ -1021,18 +1080,83 @@ def oracle_cxlrej(ctx, failures, stats, n):
                                  "observed": out})
 
 
-def oracle_session(ctx, failures, stats):
-    good = [("logon", None), ("logon", [(108, 5)]), ("logon", [(98, 0), (108, 60)]), ("logout",), ("hb", None), ("hb", "TEST"),
-            ("hb", 1700000000), ("testreq", "T1"), ("testreq", 1700000000), ("seqreset", 1, 12, False), ("seqreset", 7, 9, True),
-            ("resend", 1, "0"), ("resend", 3, 7), ("resend", 2)]
-    for sp in good:
-        if sp[0] == "resend" and len(sp) == 2:
-            sp = ("resend", sp[1], "0")
-        out, m = impl_msg(sp)
+def spec_is_valid(sp):
+    """arguments every dictionary field accepts (the oracle only judges these)"""
+    k = sp[0]
+    if k == "logon":
+        ok = {98: {"0", "1", "2", "3", "4", "5", "6"}, 141: {"Y", "N"}}
+        for t, v in (sp[1] or []):
+            v = str(v)
+            if t in ok and v not in ok[t]:
+                return False
+            if t == 108 and not re.fullmatch(r"-?[0-9]+", v):
+                return False
+            if t in (553, 554) and (not v or "=" in v):
+                return False
+            if t not in (98, 108, 141, 553, 554):
+                return False
+        return True
+    if k == "hb":
+        return sp[1] is None or (str(sp[1]) != "" and "=" not in str(sp[1]))
+    if k == "testreq":
+        return str(sp[1]) != "" and "=" not in str(sp[1])
+    if k == "seqreset":
+        return all(re.fullmatch(r"[0-9]+", str(x)) and int(x) > 0 for x in sp[1:3])
+    if k == "resend":
+        return re.fullmatch(r"[0-9]+", str(sp[1])) and int(sp[1]) > 0 and re.fullmatch(r"[0-9]+", str(sp[2]))
+    return k == "logout"
+
+
+GOOD_SPECS = [("logout",), ("hb", None), ("hb", "TEST"), ("hb", 1700000000), ("testreq", "T1"), ("testreq", 1700000000),
+              ("seqreset", 1, 12, False), ("seqreset", 7, 9, True), ("seqreset", "3", "4", True), ("resend", 1, "0"), ("resend", 3, 7),
+              ("resend", "2", 0), ("logon", None)] + [
+    ("logon", ex, how) for how in ("int", "str", "ftag", "mixed")
+    for ex in ([(108, 5)], [(98, 0)], [(98, 0), (108, 60)], [(553, "user")], [(108, 60), (553, "user"), (554, "pw")], [(141, "Y")])]
+
+
+def session_clauses(sp):
+    """a valid specification must give a message that validates and carries the caller's values"""
+    out, m = impl_msg(tuple(sp))
+    if m is None:
+        yield ("C20-session-msg-raises:" + sp[0] + ":" + out.split(" ")[-1], "msg_* raised on valid arguments", out)
+        return
+    if out.endswith("0"):
+        yield ("C20-session-msg-invalid:" + sp[0], "msg_* result refused by FIXSchema(FIX44.xml)", out)
+    if sp[0] == "logon":
+        d = {int(t): v for t, v in m.tags.items()}
+        want = dict([(98, "0"), (108, "30")] + [(t, str(v)) for t, v in (sp[1] or [])])
+        if d != want:
+            yield ("C20-session-msg-values:logon", f"Logon carries {d}, expected {want}", out)
+
+
+def oracle_session(ctx, failures, stats, first=()):
+    for sp in list(first) + GOOD_SPECS:
         stats["session_msgs"] += 1
-        if out.endswith("0"):
-            failures.append({"signature": "C20-session-msg-invalid:" + sp[0], "what": "msg_* result refused by FIXSchema(FIX44.xml)",
-                             "input": {"kind": "msg", "spec": list(sp)}, "observed": out})
+        for sig, what, out in session_clauses(sp):
+            failures.append({"signature": sig, "what": what, "input": {"kind": "msg", "spec": [list(x) if isinstance(x, tuple) else x for x in sp]},
+                             "observed": out})
+    oracle_queries(failures, stats)
+
+
+def oracle_queries(failures, stats):
+    """acceptor_sent_query / initiator_sent_query with every spelling of the tags"""
+    from asyncfix import FIXMessage, FIXTester
+
+    ft = FIXTester()
+    m = FIXMessage("8", {35: "8", 34: 7, 11: "c1", 58: "text"})
+    ft.acceptor_sent.append(m)
+    ft.initiator_sent.append(m)
+    for how in ("int", "str", "ftag"):
+        for q in (ft.acceptor_sent_query, ft.initiator_sent_query):
+            stats["session_msgs"] += 1
+            try:
+                r = q(tuple(spell(t, how) for t in (35, 34, 58)))
+                got = sorted(str(v) for v in r.values())
+            except Exception as e:  # noqa
+                got = "raised " + type(e).__name__
+            if got != ["7", "8", "text"]:
+                failures.append({"signature": "C20-sent-query:" + how, "what": f"query with {how} keys returned {got}",
+                                 "input": {"kind": "query", "how": how}, "observed": got})
 
 
 def replay(ctx, rp):
@@ -1059,9 +1183,14 @@ def replay(ctx, rp):
         bad_echo = m is not None and (d.get(434) != ("1" if inp["req"][0] == "F" else "2"))
         return m is None or " # raised" in out or not validates(m) or bad_echo
     elif kind == "msg":
-        out, m = impl_msg(tuple(inp["spec"]))
-        print("replay:", out)
-        return out.endswith("0")
+        sp = [tuple(x) if isinstance(x, list) and x and not isinstance(x[0], list) else x for x in inp["spec"]]
+        if sp[0] == "logon" and sp[1]:
+            sp[1] = [tuple(x) for x in sp[1]]
+        sigs = [s_ for s_, _w, _o in session_clauses(sp)]
+        print("replay:", sigs)
+        return sig in sigs
+    elif kind == "query":
+        oracle_queries(fails, stats)
     elif kind == "seq":
         return replay_seq(inp, sig)
     elif kind == "script":
